@@ -149,7 +149,12 @@ def check(spec, tag, overwrite, scratch):
     src = os.path.join(scratch.path, "model.pt")
     dst = os.path.join(scratch.path, "out.pt")
     torch.save(obj, src)
-    payload = f"import verif_sink\nverif_sink.sink({tag!r})"
+    # (every other case) a payload with a whitespace-only line and trailing blanks: what is
+    # executed must be the payload exactly as given
+    if len(tag) % 2:
+        payload = f"import verif_sink\n    \nif True:\n    verif_sink.sink({tag!r})\n  "
+    else:
+        payload = f"import verif_sink\nverif_sink.sink({tag!r})"
     with zipfile.ZipFile(src) as z:
         names0 = z.namelist()
         members0 = {n: z.read(n) for n in names0}
@@ -204,6 +209,11 @@ def check(spec, tag, overwrite, scratch):
             return fail(f"member {n} changed")
     if members1[pkl_name] != want_pkl:
         return fail("data.pkl is not the original with the exec payload inserted")
+    import pickletools
+
+    consts = [arg for op, arg, _ in pickletools.genops(members1[pkl_name]) if isinstance(arg, str)]
+    if payload not in consts:
+        return fail(f"the injected pickle does not carry the payload exactly as given ({payload[:50]!r}...)")
     verif_sink.reset()
     try:
         loaded = torch.load(result, weights_only=False)
